@@ -5,6 +5,7 @@ real sshuttle.client._main handshake are run on scripted fake files; the
 extracted Coq model (coq/Model/Wire.v) is run on the same scripts."""
 import itertools
 import os
+import re
 import sys
 
 PROP = "C07"
@@ -170,10 +171,19 @@ def impl_rx_end(ssnet, chunks, err=None):
     return "%s %s | %s %d" % (status, fr, hx(bytes(m.inbuf)), m.want), end
 
 
-def impl_tx(ssnet, ops, probe=None):
+def impl_tx(ssnet, ops, probe=None, lb=None):
     """probe (a list): the pipe is WRITABLE while a message is being queued (as the ssh pipe normally is); every byte
     that reaches the pipe during Mux.send / got_packet — outside Mux.flush, which only the main loop calls — is
-    recorded there as (index of the operation, bytes).  On code that only queues this changes nothing."""
+    recorded there as (index of the operation, bytes).  On code that only queues this changes nothing.
+    lb: the value of ssnet.LATENCY_BUFFER_SIZE during the script (--latency-buffer-size; cmdline.py:37 / server.py:299
+    assign it); None = the module's default."""
+    if lb is not None:
+        saved = ssnet.LATENCY_BUFFER_SIZE
+        ssnet.LATENCY_BUFFER_SIZE = lb
+        try:
+            return impl_tx(ssnet, ops, probe)
+        finally:
+            ssnet.LATENCY_BUFFER_SIZE = saved
     w = FakeW()
     if probe is not None:
         w.script = [10 ** 9]
@@ -204,6 +214,15 @@ def impl_tx(ssnet, ops, probe=None):
             w.script = keep
         if op[0] in "SG":
             continue
+        elif op[0] == "D":
+            # the main loop from here on: the pipe takes op[1] bytes per wake-up (None: whatever is offered) and
+            # flush is called as long as something is queued (ssnet.runonce: the Mux asks for writability while
+            # outbuf is non-empty).  Bounded: every wake-up on a pipe with room must move at least one byte.
+            rounds = sum(len(b) for b in m.outbuf) // max(1, min(op[1] or 512, 512)) + len(m.outbuf) + 4
+            while m.outbuf and rounds > 0:
+                rounds -= 1
+                w.script = [op[1] or 10 ** 9]
+                m.flush()
         else:
             w.script = [op[1]]
             m.flush()
@@ -228,9 +247,24 @@ class StopLoop(Exception):
     pass
 
 
+def rep_payload(blk, n):
+    return (blk * (n // max(1, len(blk)) + 1))[:n]
+
+
 def ops_str(ops):
-    return " ".join(("G:" + hx(o[1])) if o[0] == "G" else ("S:%d:%d:%s" % (o[1], o[2], hx(o[3])) if o[0] == "S" else "F:%s" % o[1])
-                    for o in ops)
+    """S:ch:cmd:hex | P:ch:cmd:len:blockhex (payload = the block repeated up to len bytes) | G:hex | F:k | D:k"""
+    out = []
+    for o in ops:
+        if o[0] == "G":
+            out.append("G:" + hx(o[1]))
+        elif o[0] == "S":
+            if len(o[3]) > 122 and o[3] == rep_payload(o[3][:61], len(o[3])):
+                out.append("P:%d:%d:%d:%s" % (o[1], o[2], len(o[3]), hx(o[3][:61])))
+            else:
+                out.append("S:%d:%d:%s" % (o[1], o[2], hx(o[3])))
+        else:
+            out.append("%s:%s" % (o[0], o[1]))
+    return " ".join(out)
 
 
 def ops_parse(txt):
@@ -241,9 +275,44 @@ def ops_parse(txt):
             ops.append(("G", bytes.fromhex(f[1]) if f[1] != "-" else b""))
         elif f[0] == "S":
             ops.append(("S", int(f[1]), int(f[2]), bytes.fromhex(f[3]) if f[3] != "-" else b""))
+        elif f[0] == "P":
+            ops.append(("S", int(f[1]), int(f[2]), rep_payload(bytes.fromhex(f[4]), int(f[3]))))
         else:
-            ops.append(("F", None if f[1] == "None" else int(f[1])))
+            ops.append((f[0], None if f[1] == "None" else int(f[1])))
     return ops
+
+
+def tx_sent_ok(ops):
+    """the messages a script hands to the real Mux that the format can carry (the others are rejected by Mux.send),
+    in order; a handled PING counts as the PONG it queues"""
+    out = []
+    for o in ops:
+        if o[0] == "G":
+            out.append((0, 0x4202, o[1]))
+        elif o[0] == "S" and o[1] <= 65535 and len(o[3]) <= 65535:
+            out.append((o[1], o[2], o[3]))
+    return out
+
+
+def tx_drain_decode(ssnet, ops, lb=None, per_wakeup=None):
+    """run the script on the real Mux, then let the main loop drain the queue (the pipe takes per_wakeup bytes per
+    wake-up), and decode everything that reached the pipe with the real Mux.handle.
+    Returns (decoded, expected, bytes still queued)."""
+    res = impl_tx(ssnet, ops + [("D", per_wakeup)], lb=lb)
+    left, wire, _ = res.split(" | ")
+    wire = bytes.fromhex(wire) if wire != "-" else b""
+    got = impl_rx(ssnet, [wire[i:i + 32768] for i in range(0, len(wire), 32768)] or [])
+    want = "OK %s | - 0" % ";".join("%d,%d,%s" % (c, k, hx(d)) for c, k, d in tx_sent_ok(ops))
+    return got, want, 0 if left == "-" else sum(len(x) // 2 for x in left.split(","))
+
+
+def short_result(r):
+    """decoded-messages string, long payloads abbreviated (for the replay file)"""
+    return re.sub(r"[0-9a-f]{80,}", lambda m: "%s…(%d bytes)" % (m.group(0)[:16], len(m.group(0)) // 2), r)[:600]
+
+
+WHAT_TX = ("messages decoded from the pipe are not the messages sent, in order (partial writes interleaved with sends; "
+           "frames of every legal size, every latency buffer size)")
 
 
 class LogSink(object):
@@ -595,6 +664,14 @@ def hs_noise_streams(rng, quick):
                     ("high-bytes-after-the-string", sync + b"\xff\xfe\x80\0\0"),
                     ("string-twice", sync + sync + tail)):
         out.append((kind, s))
+    # the server's output ENDS inside the announcement (every length 0..11), ssh still alive: a proper prefix of the string,
+    # or nothing at all after the two NULs, is not the string -- behind no noise, 8-bit noise, and noise holding a piece of it
+    for k in range(12):
+        pre = b"SSHUTTLE0001"[:k]
+        out.append(("ends-inside-the-string", b"\0\0" + pre))
+        out.append(("ends-inside-the-string", b"motd \xe9\r\n\0\xff\0" + pre))
+        if k % 3 == 0:
+            out.append(("ends-inside-the-string", b"SSHUTTLE0001\0SSHUTTLE0001\0" + pre))
     # each byte value on its own (all of them in the thorough tier)
     special = [0x01, 0x09, 0x0a, 0x0d, 0x1b, 0x25, 0x5c, 0x7f, 0x80, 0x9b, 0xa0, 0xc0, 0xc3, 0xe9, 0xf4, 0xff]
     vals = sorted(set(special + rng.sample(range(1, 256), 24))) if quick else list(range(1, 256))
@@ -1193,33 +1270,55 @@ def correspondence(ctx):
     ctx.extra["exhaustive_short_streams"] = nshort
 
     # ---- C: sender scripts
-    lines, impl = [], []
-    for _ in range(60 if quick else 1500):
+    # Two families.  "small": many short messages, flushes that take a few bytes.  "big": messages of 32768..65535
+    # bytes (the ROUTES advertisement of a large routing table, a HOST_LIST, a 64K datagram — the only messages longer
+    # than one latency buffer) among short ones, on a pipe that takes from one byte to more than a pipe buffer per
+    # wake-up.  Every script runs under one of the values ssnet.LATENCY_BUFFER_SIZE can have (--latency-buffer-size;
+    # the write path must not depend on it: Wire.v's mux_flush has no such parameter, theorems c07_tx_*), the
+    # extracted model is run on the same script, and — implementation alone — what reached the pipe is decoded.
+    LBS = [None, None, 1, 7, 1024, 2048, 4096, 32768, 65536, 1048576, 2 ** 31]
+    lines, impl, tx_descr = [], [], []
+    nsmall, nbig = (60, 10) if quick else (1500, 150)
+    for si in range(nsmall + nbig):
+        big = si >= nsmall
+        lb = LBS[si % len(LBS)] if si < 2 * len(LBS) or big else rng.choice(LBS + [rng.randint(1, 70000)])
         ops, txt = [], []
-        for _ in range(rng.randint(1, 14)):
+        for oi in range(rng.randint(1, 14) if not big else rng.randint(2, 9)):
             if rng.random() < 0.12:
                 d = rand_payload(rng.choice([0, 6, 7]))
                 ops.append(("G", d))
                 txt.append("S:0:%d:%s" % (0x4202, hx(d)))       # model: the PONG is one more message sent
                 ctx.count("tx_ping_handled")
-            elif rng.random() < 0.45:
+            elif rng.random() < 0.45 or (big and oi == 0):
                 ln = rng.choice([0, 1, 8, 9, rng.randint(0, 80), 2048])
                 if rng.random() < 0.05:
                     ln = 65536
-                ch = rng.choice([0, 1, 65535, 65536]) if rng.random() < 0.2 else rng.randint(0, 65535)
+                if big and (oi == 0 or rng.random() < 0.3):
+                    # header + payload just below / at / above one latency buffer, two of them, and the format's limit
+                    ln = rng.choice([32759, 32760, 32761, 32768, 32769, 65527, 65528, 65529, 65534, 65535,
+                                     rng.randint(32761, 65535), rng.randint(2049, 32759)])
+                    if si - nsmall < 4:
+                        ln = [32761, 65535, 40000, 32760][si - nsmall]
+                    ctx.count("tx_send_longer_than_a_latency_buffer" if ln + 8 > 32768 else "tx_send_long")
+                ch = rng.choice([0, 1, 65535, 65536]) if rng.random() < 0.2 and not (big and oi == 0) else rng.randint(0, 65535)
                 d = rand_payload(ln)
                 ops.append(("S", ch, 0x4206, d))
                 txt.append("S:%d:%d:%s" % (ch, 0x4206, hx(d)))
                 ctx.count("tx_send")
             else:
                 k = rng.choice([None, 0, 1, 7, 8, 9, rng.randint(0, 120), 100000])
+                if big:
+                    k = rng.choice([None, 0, 1, 8, 4096, 32767, 32768, 32769, 65536, rng.randint(1, 70000), 100000])
                 ops.append(("F", k))
                 txt.append("F:%s" % ("-" if k is None else k))
                 ctx.count("tx_flush_" + ("eagain" if k is None else "zero" if k == 0 else "partial"))
+        ctx.count("tx_scripts_%s" % ("big" if big else "small"))
+        ctx.count("tx_latency_buffer_%s" % ("default" if lb is None else lb if lb in LBS else "other"))
         lines.append("TX " + " ".join(txt))
-        impl.append(impl_tx(ssnet, ops))
+        tx_descr.append((ops, lb))
+        impl.append(impl_tx(ssnet, ops, lb=lb))
         probe = []
-        impl_tx(ssnet, ops, probe)
+        impl_tx(ssnet, ops, probe, lb=lb)
         ctx.count("tx_scripts_with_writable_pipe_while_queueing")
         if probe:
             ctx.violation("queueing a message wrote to the tunnel (Mux.send / the constructor's PING put bytes on a writable pipe "
@@ -1228,23 +1327,22 @@ def correspondence(ctx):
                           {"tx_probe": "" if probe[0][0] < 0 else ops_str(ops[:probe[0][0] + 1]),
                            "detail": {"operation_index": probe[0][0], "bytes_written_hex": probe[0][1].hex()[:200],
                                       "operation": "the constructor" if probe[0][0] < 0 else ops_str([ops[probe[0][0]]])[:200]}})
-        sent_frames = [t.split(":") for t in txt if t.startswith("S:")]
-        sent_ok = [(int(c), int(k), bytes.fromhex(h) if h != "-" else b"") for _, c, k, h in sent_frames
-                   if int(c) <= 65535 and len(h) // 2 <= 65535]
-        drained = impl_tx(ssnet, ops + [("F", 10 ** 9)] * (len(ops) + 2))
-        wire = drained.split(" | ")[1]
-        wire = bytes.fromhex(wire) if wire != "-" else b""
-        got = impl_rx(ssnet, [wire[i:i + 32768] for i in range(0, len(wire), 32768)] or [])
-        want = "OK %s | - 0" % ";".join("%d,%d,%s" % (c, k, hx(d)) for c, k, d in sent_ok)
-        if got != want:
-            ctx.violation("messages decoded from the pipe are not the messages sent, in order (partial writes interleaved with sends)",
-                          {"ops": ops_str(ops)[:1500],
-                           "decoded": got[:400], "expected": want[:400]})
+        # oracle on the implementation alone: the main loop drains the queue (pipe takes everything / a pipe buffer /
+        # a few bytes per wake-up); the bytes on the pipe decode to exactly the messages sent, in order
+        for per in ([None] if not big else [None, rng.choice([65536, 4096, 32768, rng.randint(1000, 70000)])]):
+            got, want, left = tx_drain_decode(ssnet, ops, lb, per)
+            if got != want or left:
+                ctx.violation(WHAT_TX,
+                              {"tx_ops": ops_str(ops), "latency_buffer_size": lb, "pipe_takes_per_wakeup": per,
+                               "messages_sent": [[c, k, len(d)] for c, k, d in tx_sent_ok(ops)],
+                               "decoded": short_result(got), "expected": short_result(want),
+                               "bytes_never_written": left})
     out = ctx.run_driver(lines)
-    for ln, i, o in zip(lines, impl, out):
-        ctx.case(("tx", ln), sample={"kind": "tx", "ops": ln[:150], "result": i[:100]})
+    for ln, i, o, (ops, lb) in zip(lines, impl, out, tx_descr):
+        ctx.case(("tx", ln, lb), sample={"kind": "tx", "ops": ops_str(ops)[:150], "latency_buffer_size": lb,
+                                         "result": i[:100]} if len(ln) < 4000 or lb else None)
         if i != o:
-            ctx.disagree("tx_run", ln[:400], i[:400], o[:400])
+            ctx.disagree("tx_run", "latency buffer %s: %s" % (lb, ops_str(ops)[:400]), short_result(i), short_result(o))
 
     # ---- D: handshake under every delivery boundary
     import sshuttle.server  # noqa: F401  (import check only)
@@ -1372,6 +1470,12 @@ def replay(ctx, rp):
         if r["client_start"].get("expect") == "accepted-or-rejected":
             return outcome.split(" ")[0] not in ("0", "1")
         return bad is not None
+    if "tx_ops" in r:
+        ops = ops_parse(r["tx_ops"])
+        got, want, left = tx_drain_decode(ssnet, ops, r.get("latency_buffer_size"), r.get("pipe_takes_per_wakeup"))
+        print("messages sent (channel, command, payload bytes):", [[c, k, len(d)] for c, k, d in tx_sent_ok(ops)][:12])
+        print("decoded from the pipe:", short_result(got)[:300], "| bytes never written:", left)
+        return got != want or bool(left)
     if "tx_probe" in r:
         probe = []
         impl_tx(ssnet, ops_parse(r["tx_probe"]), probe)
